@@ -308,7 +308,20 @@ def gen_fn(g, header_words, block_lines):
             g.rule_log.append((qual, "R7 closure #%s |%s| lifted as `%s`" % (opts["closure"], params, fsig), 1))
         else:
             lp = rw.loops(body)
-            n = int(opts["loopbody"])
+            lb = opts["loopbody"].strip('"')
+            if lb.isdigit():
+                n = int(lb)
+            else:
+                # loopbody="header text": the first loop whose keyword sits at or after the anchor
+                ms = rw.find_matches(body, lb)
+                if not ms:
+                    raise RuleMismatch("%s: loop anchor `%s` not found" % (qual, lb))
+                cand = [k for k, (kw, _) in enumerate(lp) if kw >= ms[0][0]]
+                if not cand:
+                    raise RuleMismatch("%s: no loop at or after anchor `%s`" % (qual, lb))
+                n = cand[0] + 1
+            if n > len(lp):
+                raise RuleMismatch("%s: loop #%d not found (%d loops)" % (qual, n, len(lp)))
             o = lp[n - 1][1]
             c = match_close(body, o)
             inner = body[o:c + 1]
